@@ -97,6 +97,10 @@ func TestC06(t *testing.T) {
 				{HAEnabled: true, Mode: "Active-Active", State: "active-primary"},
 				{HAEnabled: true, Mode: "Active-Active", State: "active-secondary"},
 				{HAEnabled: true, Mode: "Active-Passive", State: "suspended"},
+				// a non-active member whose mode is reported in another spelling / not at all
+				{HAEnabled: true, Mode: "active-passive", State: "passive"},
+				{HAEnabled: true, Mode: "Active-Active (A/A)", State: "suspended"},
+				{HAEnabled: true, Mode: "-", State: "passive"},
 				{BadReply: true},
 			}).Draw(rt, "ha")}
 		}
@@ -216,6 +220,36 @@ func TestC15(t *testing.T) {
 		c := sc.Case("C15")
 		c.Params["rel"] = rel
 		props.Judge(rt, ev, oracleC15, c, func() any { return sc })
+	})
+}
+
+const ruleC07nsx = "NSX through the real dialogue (drc / do-approve approve and compare against the manager simulator): besides a generated managed part the manager holds 1-4 groups, services and gateway policies whose ids lack the Netspoc prefix, among them ids that contain the word in another position or spelling; no modifying request may name one of them; " +
+	"non-trivial = the run sent at least one modifying request; distinct = hash of the scenario"
+
+var (
+	foreignGroupIDs   = []string{"admin-hosts", "pre-Netspoc-migration", "netspoc-lab", "DMZ_servers"}
+	foreignServiceIDs = []string{"HTTP", "legacy_netspoc_tcp_8080", "NETSPOC-old", "custom-ssh"}
+	foreignPolicyIDs  = []string{"default-tier0", "netspoc-manual-tier0", "Manual-Netspoc"}
+)
+
+func TestC07nsx(t *testing.T) {
+	ev := evid.New("C07", ruleC07nsx)
+	props.Finish(t, ev)
+	rapid.Check(t, func(rt *rapid.T) {
+		sc := genBase(rt, "nsx")
+		sc.Front = rapid.SampledFrom([]string{"drc", "do-approve"}).Draw(rt, "front")
+		sc.Verb = rapid.SampledFrom([]string{"approve", "approve", "approve", "compare"}).Draw(rt, "verb")
+		for _, id := range rapid.SliceOfNDistinct(rapid.SampledFrom(foreignGroupIDs), 1, 3, rapid.ID[string]).Draw(rt, "fg") {
+			sc.ForeignGroups = append(sc.ForeignGroups, `{"id":"`+id+`","expression":[{"id":"id","resource_type":"IPAddressExpression","ip_addresses":["10.99.1.1","10.99.2.0/24"]}]}`)
+		}
+		for _, id := range rapid.SliceOfNDistinct(rapid.SampledFrom(foreignServiceIDs), 1, 3, rapid.ID[string]).Draw(rt, "fs") {
+			sc.ForeignServices = append(sc.ForeignServices, `{"id":"`+id+`","service_entries":[{"id":"id","resource_type":"L4PortSetServiceEntry","l4_protocol":"TCP","source_ports":[],"destination_ports":["8080"]}]}`)
+		}
+		for _, id := range rapid.SliceOfNDistinct(rapid.SampledFrom(foreignPolicyIDs), 0, 2, rapid.ID[string]).Draw(rt, "fp") {
+			sc.ForeignPolicies = append(sc.ForeignPolicies, `{"id":"`+id+`","resource_type":"GatewayPolicy","rules":[{"id":"m1","action":"ALLOW","sequence_number":10,"source_groups":["ANY"],"destination_groups":["10.99.1.1"],"services":["ANY"],"scope":["/infra/tier-0s/v1"],"direction":"IN_OUT","ip_protocol":"IPV4"}]}`)
+		}
+		c := sc.Case("C07")
+		props.Judge(rt, ev, oracleC07nsx, c, func() any { return sc })
 	})
 }
 
